@@ -1,7 +1,7 @@
 //! The compositional translation: Rust expressions and statements of the
-//! bodies of the core functions of `src/lib.rs` -> `ir::Comp`.
+//! bodies of the functions of the crate -> `ir::Comp`.
 //!
-//! Every construct is rendered the way `theories/Buf.v` renders it by hand:
+//! Every construct is rendered the way `theories/*.v` render it by hand:
 //!
 //!   self.size / self.start (read)        t <- get_size / get_start         (can neither fail nor write)
 //!   N                                    t <- get_cap
@@ -14,7 +14,7 @@
 //!   &x[a..b], &x[..b] on a slice x       sl_range x a b / sl_range x 0 b
 //!   &[], &mut [], &[][..]                empty_slice
 //!   r.assume_init_ref() / _mut()         r          (a reference to a slot is the slot's index)
-//!   r.assume_init_read()                 read_slot r
+//!   r.assume_init_read(), ptr::read(r)   read_slot r
 //!   r.write(item)                        write_slot r item
 //!   mem::replace(r, item)                gen_mem_replace r item  (read_slot, then write_slot)
 //!   ptr::copy(p.add(a), p.add(b), n)     raw_copy a b n          (p = self.items.as_mut_ptr())
@@ -27,59 +27,157 @@
 //!   if c { ..; return v; } rest          if c then ret v else rest
 //!   self.f(args) / f(args)               gen_f args              (f translated first)
 //!
+//! and, beyond the inherent methods of CircularBuffer:
+//!
+//!   a struct of the crate (Iter, IterMut, Drain, CircularSlicePtr)
+//!                                        the record of the model (mkI, mkD, mkC); a field read is the
+//!                                        projection; an assignment to a field builds a new record
+//!   `&mut self` on such a struct, `&mut &[T]` parameter
+//!                                        state passing: the function hands back the new value
+//!                                        together with its result (only when it can change it)
+//!   `let mut x`, `x = e`, `x -= e`       the name is bound again
+//!   R: RangeBounds<usize>                two values of type `bound`; `..b`, `a..` at a call site are
+//!                                        (BUnb, BExcl b), (BIncl a, BUnb)
+//!   match on Bound / a pair of Bounds    match ... with BIncl x | BExcl x | BUnb
+//!   o.expect(".."), unimplemented!()     match o with Some v => ret v | None => panic PExpect end,
+//!                                        panic PUnimplemented
+//!   if let Some(x) = e {a} else {b}      match e with None => b | Some x => a end
+//!   o.map(|x| body)                      match o with None => ret None | Some x => v <- body;; ret (Some v) end
+//!   Range<usize>::next / next_back / len / is_empty on a field
+//!                                        gen_range_next / gen_range_next_back / gen_range_len / b <=? a
+//!   slice.split_first() / split_last()   gen_split_first / gen_split_last
+//!   mem::take(slice)                     the slice; the place holds empty_slice afterwards
+//!   while c { body }                     a Fixpoint on fuel (panic PFuel when it runs out), the fuel
+//!                                        expression is the one the hand model uses
+//!   a local of a nested struct type with `impl Drop`
+//!                                        finally rest (its destructor) when it lives to the end of
+//!                                        the block; on_unwind around the user code that runs while
+//!                                        it is alive when it is moved (drop(x), mem::forget(x))
+//!   ptr::drop_in_place(slice)            drop_slice
+//!   a `T` received by value              on_unwind (..) (drop_elem v) around user code while it is
+//!                                        owned, drop_elem v where it goes out of scope
+//!
 //! Anything else is refused with a message naming the construct.
 
 use crate::ir::*;
 use proc_macro2::Span;
 use std::collections::{BTreeSet, HashMap, HashSet};
 use syn::spanned::Spanned;
-use syn::{BinOp, Expr, Lit, Pat, Stmt, UnOp};
+use syn::Expr;
 
 #[derive(Clone, Debug)]
-pub struct Sig {
-    pub params: Vec<(String, Ty)>,
-    pub ret: Ty,
-    pub method: bool,
+pub struct Param {
+    pub name: String,
+    pub ty: Ty,
+    /// `&mut &[T]` / `&mut &mut [T]`: assigned through `*name`; handed back when it can change
+    pub by_mut_ref: bool,
 }
 
-/// a function of the crate that is not translated but has a hand-written model
-/// that translated callers may refer to (reported, never silent)
-pub struct External {
-    pub coq: &'static str,
-    pub params: &'static [Ty],
+/// what a caller has to know about a function before its body is translated
+#[derive(Clone, Debug)]
+pub struct FnInfo {
+    pub key: String,
+    pub owner: Option<String>,
+    pub name: String,
+    /// `Ty::Buf` (the machine state) or a record
+    pub self_ty: Option<Ty>,
+    /// `&mut self`
+    pub self_mut: bool,
+    pub params: Vec<Param>,
     pub ret: Ty,
+    /// `N` (a const generic of the function or of its impl) is the capacity
+    pub has_n: bool,
+    pub file: String,
 }
 
-pub fn externals() -> HashMap<&'static str, External> {
-    let mut m = HashMap::new();
-    m.insert("drop_range", External { coq: "Buf.drop_range", params: &[Ty::Range], ret: Ty::Unit });
-    m
+/// what is known once the body is translated
+#[derive(Clone, Debug, Default)]
+pub struct DoneInfo {
+    /// does the function hand back a new `self`
+    pub self_out: bool,
+    /// indexes (in `params`) of the `&mut` parameters it hands back
+    pub outs: Vec<usize>,
+    /// can neither fail nor write
+    pub harmless: bool,
+    /// may run user code (Drop, Clone, a closure)
+    pub user: bool,
+    /// not translated: callers refer to this hand-written model instead (reported, never silent)
+    pub external: Option<String>,
+}
+
+/// a struct declared inside a function body, with its destructor
+#[derive(Clone)]
+pub struct Nested {
+    pub fields: Vec<(String, Ty)>,
+    pub drop_body: Option<syn::Block>,
 }
 
 pub type Env = HashMap<String, Val>;
 
 pub struct Tr<'a> {
-    pub sigs: &'a HashMap<String, Sig>,
-    pub done: &'a HashSet<String>,
-    pub exts: &'a HashMap<&'static str, External>,
+    pub fns: &'a HashMap<String, FnInfo>,
+    /// (owner type, function name) -> key
+    pub index: &'a HashMap<(Option<String>, String), String>,
+    pub done: &'a HashMap<String, DoneInfo>,
+    pub me: FnInfo,
     /// every identifier that occurs in the function: fresh names avoid them
     pub used: HashSet<String>,
     pub counter: usize,
-    pub ret_ty: Ty,
-    pub method: bool,
     /// may `return` / `?` leave the function from here (see `block`)
     pub can_return: bool,
     pub calls: BTreeSet<String>,
+    /// the untranslated callees whose hand-written model the text refers to
     pub ext_calls: BTreeSet<String>,
     /// set when the translation stopped at a call of a function that has to be translated first
     pub need: Option<String>,
+    /// is `self` / which `&mut` parameters are handed back (candidates; see main.rs)
+    pub self_out: bool,
+    pub outs: Vec<usize>,
+    /// did any exit of the function hand back a value other than the one received
+    pub self_changed: bool,
+    pub outs_changed: HashSet<usize>,
+    /// the locals with a destructor that are alive, oldest first
+    pub live: Vec<String>,
+    pub nested: HashMap<String, Nested>,
+    /// the loops of the function, as Fixpoints (text), in order
+    pub aux: Vec<String>,
+    pub loops: usize,
+    pub fuel: &'a [&'static str],
+    /// only state reads so far / user code called
+    pub harmless: bool,
+    pub user: bool,
+    pub in_loop: bool,
+    /// nesting of the block at hand (the function body is 1)
+    pub depth: usize,
 }
 
-fn no_attrs(attrs: &[syn::Attribute], sp: Span) -> Res<()> {
+pub fn no_attrs(attrs: &[syn::Attribute], sp: Span) -> Res<()> {
     if attrs.is_empty() { Ok(()) } else { unsupported("attribute on an expression or statement", sp) }
 }
 
-fn path_segments(p: &syn::ExprPath) -> Res<Vec<String>> {
+/// the attributes of a statement-level expression select the build: `#[cfg(feature = "unstable")]`
+/// is not the build the model describes, `#[cfg(not(feature = "unstable"))]` is.
+/// Some(true): keep; Some(false): leave out; None: other attributes
+pub fn cfg_keep(attrs: &[syn::Attribute]) -> Option<bool> {
+    let mut keep = true;
+    for a in attrs {
+        let t = norm_tokens(a);
+        if t == "# [cfg (feature = \"unstable\")]" {
+            keep = false;
+        } else if t == "# [cfg (not (feature = \"unstable\"))]" {
+        } else if t.starts_with("# [allow (") || t.starts_with("# [doc") || t == "# [inline]" {
+        } else {
+            return None;
+        }
+    }
+    Some(keep)
+}
+
+pub fn norm_tokens(ts: impl quote::ToTokens) -> String {
+    ts.to_token_stream().to_string().split_whitespace().collect::<Vec<_>>().join(" ")
+}
+
+pub fn path_segments(p: &syn::ExprPath) -> Res<Vec<String>> {
     if p.qself.is_some() || p.path.leading_colon.is_some() {
         return unsupported("qualified path", p.span());
     }
@@ -101,6 +199,25 @@ fn is_plain(p: &syn::TypePath, name: &str) -> bool {
     p.qself.is_none() && p.path.is_ident(name)
 }
 
+fn seg_args(s: &syn::PathSegment) -> Res<Vec<&syn::Type>> {
+    match &s.arguments {
+        syn::PathArguments::AngleBracketed(a) => {
+            let mut v = vec![];
+            for g in &a.args {
+                match g {
+                    syn::GenericArgument::Type(t) => v.push(t),
+                    syn::GenericArgument::Lifetime(_) => {}
+                    // `N` as a const argument parses as a type; anything else is refused
+                    other => return unsupported("generic argument that is not a type", other.span()),
+                }
+            }
+            Ok(v)
+        }
+        syn::PathArguments::None => Ok(vec![]),
+        _ => unsupported("parenthesised type arguments", s.span()),
+    }
+}
+
 /// `MaybeUninit<T>` or `T`
 fn is_slot_type(t: &syn::Type) -> bool {
     match t {
@@ -119,69 +236,121 @@ fn is_slot_type(t: &syn::Type) -> bool {
     }
 }
 
-pub fn type_of(t: &syn::Type) -> Res<Ty> {
+/// what the type names of a signature mean where the function is declared
+#[derive(Clone, Default)]
+pub struct TyCtx {
+    /// the type of the impl (`Self`)
+    pub owner: Option<String>,
+    /// the type parameters bounded by `RangeBounds<usize>`
+    pub bounds_params: Vec<String>,
+    /// `type Item = ..` / `type Output = ..` of the impl
+    pub assoc: HashMap<String, syn::Type>,
+    /// `&[T]` parameters of this name are data outside the array
+    pub list_params: Vec<String>,
+    /// the element type is `u8` (the io impls): `&[u8]` is data outside the array
+    pub bytes: bool,
+}
+
+fn is_buffer_path(p: &syn::TypePath) -> bool {
+    p.qself.is_none() && last_seg(&p.path).map(|s| s.ident == "CircularBuffer").unwrap_or(false)
+}
+
+pub fn type_of(t: &syn::Type, cx: &TyCtx) -> Res<Ty> {
     match t {
-        syn::Type::Paren(p) => type_of(&p.elem),
+        syn::Type::Paren(p) => type_of(&p.elem, cx),
         syn::Type::Path(p) if is_plain(p, "usize") => Ok(Ty::Usize),
         syn::Type::Path(p) if is_plain(p, "bool") => Ok(Ty::Bool),
         syn::Type::Path(p) if is_plain(p, "T") => Ok(Ty::Elem),
+        syn::Type::Path(p) if p.qself.is_none() && p.path.is_ident("Self") => match &cx.owner {
+            Some(o) if rec_coq(o).is_some() => Ok(Ty::Rec(o.clone())),
+            Some(o) if o == "CircularBuffer" || o == "IntoIter" => unsupported(
+                "a buffer by value (`Self`): in the model the buffer is the state of the computation, not a value a computation builds or returns",
+                t.span(),
+            ),
+            _ => unsupported("`Self` outside an impl of a struct the model has a record for", t.span()),
+        },
+        syn::Type::Path(p)
+            if p.qself.is_none()
+                && p.path.segments.len() == 2
+                && p.path.segments[0].ident == "Self"
+                && p.path.segments[0].arguments.is_none() =>
+        {
+            let n = p.path.segments[1].ident.to_string();
+            match cx.assoc.get(&n) {
+                Some(x) => type_of(x, cx),
+                None => unsupported(&format!("associated type `Self::{}`", n), t.span()),
+            }
+        }
+        syn::Type::Path(p) if p.qself.is_none() && p.path.get_ident().map(|i| cx.bounds_params.contains(&i.to_string())).unwrap_or(false) => {
+            Ok(Ty::Bounds)
+        }
         syn::Type::Path(p) if p.qself.is_none() => {
             let s = match last_seg(&p.path) {
                 Some(s) => s,
                 None => return unsupported("empty type path", t.span()),
             };
-            let args: Vec<&syn::Type> = match &s.arguments {
-                syn::PathArguments::AngleBracketed(a) => a
-                    .args
-                    .iter()
-                    .map(|g| match g {
-                        syn::GenericArgument::Type(t) => Ok(t),
-                        other => unsupported("generic argument that is not a type", other.span()),
-                    })
-                    .collect::<Res<Vec<_>>>()?,
-                syn::PathArguments::None => vec![],
-                _ => return unsupported("parenthesised type arguments", t.span()),
-            };
-            match (s.ident.to_string().as_str(), args.as_slice()) {
-                ("Option", [x]) => Ok(Ty::Opt(Box::new(type_of(x)?))),
-                ("Result", [a, b]) => match (type_of(a)?, type_of(b)?) {
-                    (Ty::Unit, Ty::Elem) => Ok(Ty::ResUnitElem),
-                    _ => unsupported("Result other than Result<(), T>", t.span()),
-                },
-                ("Range", [a]) if type_of(a)? == Ty::Usize => Ok(Ty::Range),
-                _ => unsupported(&format!("type `{}`", quote::ToTokens::to_token_stream(t)), t.span()),
+            let name = s.ident.to_string();
+            if rec_coq(&name).is_some() {
+                return Ok(Ty::Rec(name));
+            }
+            let args = seg_args(s)?;
+            match (name.as_str(), args.as_slice()) {
+                ("Option", [x]) => Ok(Ty::Opt(Box::new(type_of(x, cx)?))),
+                ("Result", [a]) if cx.bytes => Ok(Ty::IoRes(Box::new(type_of(a, cx)?))),
+                ("Result", [a, b]) => {
+                    if cx.bytes && norm_tokens(b) == "Self :: Error" {
+                        return Ok(Ty::IoRes(Box::new(type_of(a, cx)?)));
+                    }
+                    match (type_of(a, cx)?, type_of(b, cx)?) {
+                        (Ty::Unit, Ty::Elem) => Ok(Ty::ResUnitElem),
+                        _ => unsupported("Result other than Result<(), T>", t.span()),
+                    }
+                }
+                ("Range", [a]) if type_of(a, cx)? == Ty::Usize => Ok(Ty::Range),
+                ("NonNull", [syn::Type::Path(q)]) if is_buffer_path(q) => Ok(Ty::Buf),
+                ("CircularBuffer", _) => unsupported(
+                    "a buffer by value: in the model the buffer is the state of the computation, not a value a computation receives or returns",
+                    t.span(),
+                ),
+                _ => unsupported(&format!("type `{}`", norm_tokens(t)), t.span()),
             }
         }
         syn::Type::Reference(r) => match &*r.elem {
             e if is_slot_type(e) => Ok(Ty::Ref),
+            syn::Type::Path(p) if is_plain(p, "usize") => Ok(Ty::Usize),
+            syn::Type::Path(p) if is_buffer_path(p) => Ok(Ty::Buf),
             syn::Type::Slice(s) if is_slot_type(&s.elem) => Ok(Ty::Slice),
-            _ => unsupported(&format!("reference type `{}`", quote::ToTokens::to_token_stream(t)), t.span()),
+            syn::Type::Slice(s) if cx.bytes && matches!(&*s.elem, syn::Type::Path(p) if is_plain(p, "u8")) => Ok(Ty::List),
+            syn::Type::Path(p) if p.qself.is_none() && p.path.segments.len() == 2 && p.path.segments[0].ident == "Self" => {
+                // `&Self::Output`
+                match type_of(&r.elem, cx)? {
+                    Ty::Elem => Ok(Ty::Ref),
+                    other => unsupported(&format!("reference to {}", other.show()), t.span()),
+                }
+            }
+            _ => unsupported(&format!("reference type `{}`", norm_tokens(t)), t.span()),
         },
+        syn::Type::Ptr(p) if is_slot_type(&p.elem) => Ok(Ty::Ptr),
         syn::Type::Tuple(tt) => {
-            let v = tt.elems.iter().map(type_of).collect::<Res<Vec<_>>>()?;
+            let v = tt.elems.iter().map(|x| type_of(x, cx)).collect::<Res<Vec<_>>>()?;
             Ok(if v.is_empty() { Ty::Unit } else { Ty::Tuple(v) })
         }
-        _ => unsupported(&format!("type `{}`", quote::ToTokens::to_token_stream(t)), t.span()),
+        _ => unsupported(&format!("type `{}`", norm_tokens(t)), t.span()),
     }
 }
 
-fn is_self(e: &Expr) -> bool {
-    matches!(e, Expr::Path(p) if p.qself.is_none() && p.path.is_ident("self"))
-}
-
-/// `self.<field>`
-fn self_field(e: &Expr) -> Option<String> {
-    match e {
-        Expr::Paren(p) => self_field(&p.expr),
-        Expr::Field(f) if is_self(&f.base) => match &f.member {
-            syn::Member::Named(n) => Some(n.to_string()),
-            _ => None,
+/// `&mut &'a [T]` / `&mut &'a mut [T]`
+pub fn mut_ref_to_slice(t: &syn::Type) -> bool {
+    match t {
+        syn::Type::Reference(r) if r.mutability.is_some() => match &*r.elem {
+            syn::Type::Reference(q) => matches!(&*q.elem, syn::Type::Slice(s) if is_slot_type(&s.elem)),
+            _ => false,
         },
-        _ => None,
+        _ => false,
     }
 }
 
-fn is_empty_array(e: &Expr) -> bool {
+pub fn is_empty_array(e: &Expr) -> bool {
     match e {
         Expr::Paren(p) => is_empty_array(&p.expr),
         Expr::Array(a) => a.elems.is_empty() && a.attrs.is_empty(),
@@ -189,14 +358,71 @@ fn is_empty_array(e: &Expr) -> bool {
     }
 }
 
-fn describe(e: &Expr) -> String {
+pub fn describe(e: &Expr) -> String {
     let dbg = format!("{:?}", e);
     let kind = dbg.split(|c: char| !c.is_alphanumeric() && c != ':').next().unwrap_or("expression");
     format!("expression of kind {}", kind)
 }
 
+// ---------------------------------------------------------------- records
+
+pub enum FieldKind {
+    Plain(&'static str, Ty),
+    Range(&'static str, &'static str),
+    /// the buffer the struct points to: the machine state
+    Buf,
+    /// not represented; the initialiser must be this path
+    Ignore(&'static str),
+    /// not represented because it always has this value (checked where the struct is built)
+    FixedPtrBase,
+}
+
+pub struct Schema {
+    pub ctor: &'static str,
+    pub fields: Vec<(&'static str, &'static str, FieldKind)>, // (name, type text, kind)
+}
+
+pub fn schema(name: &str) -> Option<Schema> {
+    match name {
+        "Iter" => Some(Schema {
+            ctor: "mkI",
+            fields: vec![
+                ("right", "& 'a [T]", FieldKind::Plain("it_right", Ty::Slice)),
+                ("left", "& 'a [T]", FieldKind::Plain("it_left", Ty::Slice)),
+            ],
+        }),
+        "IterMut" => Some(Schema {
+            ctor: "mkI",
+            fields: vec![
+                ("right", "& 'a mut [T]", FieldKind::Plain("it_right", Ty::Slice)),
+                ("left", "& 'a mut [T]", FieldKind::Plain("it_left", Ty::Slice)),
+            ],
+        }),
+        "Drain" => Some(Schema {
+            ctor: "mkD",
+            fields: vec![
+                ("buf", "NonNull < CircularBuffer < N , T > >", FieldKind::Buf),
+                ("buf_size", "usize", FieldKind::Plain("d_buf_size", Ty::Usize)),
+                ("range", "Range < usize >", FieldKind::Range("d_rs", "d_re")),
+                ("iter", "Range < usize >", FieldKind::Range("d_is", "d_ie")),
+                ("phantom", "PhantomData < & 'a T >", FieldKind::Ignore("PhantomData")),
+            ],
+        }),
+        "CircularSlicePtr" => Some(Schema {
+            ctor: "mkC",
+            fields: vec![
+                ("slice_start", "* mut T", FieldKind::FixedPtrBase),
+                ("slice_len", "usize", FieldKind::Plain("c_len", Ty::Usize)),
+                ("offset", "usize", FieldKind::Plain("c_off", Ty::Usize)),
+                ("phantom", "PhantomData < & 'a T >", FieldKind::Ignore("PhantomData")),
+            ],
+        }),
+        _ => None,
+    }
+}
+
 impl<'a> Tr<'a> {
-    fn fresh(&mut self) -> String {
+    pub fn fresh(&mut self) -> String {
         loop {
             self.counter += 1;
             let n = format!("t{}", self.counter);
@@ -213,869 +439,133 @@ impl<'a> Tr<'a> {
     pub fn coq_ident(&mut self, id: &syn::Ident) -> Res<String> {
         let s = id.to_string();
         let s = s.strip_prefix("r#").unwrap_or(&s).to_string();
-        if !s.chars().all(|c| c.is_ascii_alphanumeric() || c == '_') || s.is_empty() || s == "_" {
+        if !s.chars().all(|c| c.is_ascii_alphanumeric() || c == '_') || s.is_empty() || s == "_" || s == "cg_fuel" {
             return unsupported(&format!("identifier `{}`", s), id.span());
         }
         Ok(format!("{}'", s))
     }
 
-    // ------------------------------------------------------------ values
-
-    /// evaluate to a pure value; what must run first goes to `pre`
-    fn val(&mut self, e: &Expr, env: &Env, pre: &mut Vec<Pre>) -> Res<Val> {
-        let c = self.comp(e, env, pre, false)?;
-        self.bind_val(c, pre, e.span())
-    }
-
-    fn bind_val(&mut self, c: Comp, pre: &mut Vec<Pre>, sp: Span) -> Res<Val> {
-        match c {
-            Comp::Ret(v) => Ok(v),
-            c => {
-                let ty = c.ty();
-                if ty == Ty::Unit {
-                    return unsupported("unit-valued expression used as a value", sp);
-                }
-                let harmless =
-                    matches!(&c, Comp::Op(f, a, _) if a.is_empty() && ["get_size", "get_start", "get_cap", "items_slice"].contains(&f.as_str()));
-                let n = self.fresh();
-                pre.push(Pre::Bind(Some(n.clone()), c, harmless));
-                Ok(Val::atom(n, ty))
-            }
+    /// an operation that only reads the state
+    pub fn op_harmless(&self, f: &str, nargs: usize) -> bool {
+        if nargs == 0 && ["get_size", "get_start", "get_cap", "items_slice", "get_items"].contains(&f) {
+            return true;
+        }
+        match f.strip_prefix("gen_") {
+            Some(k) => self.done.get(k).map(|d| d.harmless).unwrap_or(false),
+            None => false,
         }
     }
 
-    fn typed(&mut self, e: &Expr, env: &Env, pre: &mut Vec<Pre>, want: &Ty, what: &str) -> Res<Val> {
-        let v = self.val(e, env, pre)?;
-        if !v.ty.compat(want) {
-            return Err(format!(
-                "{}: {} has type {}, expected {}",
-                at(e.span()), what, v.ty.show(), want.show()
-            ));
+    pub fn op_user(&self, f: &str) -> bool {
+        if ["drop_elem", "drop_slice", "drop_opt", "drop_list", "clone_elem", "call_closure"].contains(&f) {
+            return true;
         }
-        Ok(v)
-    }
-
-    /// `a..b`, `..b`, `a..`, `..`: the two bounds, `None` where absent
-    fn range_bounds(
-        &mut self,
-        r: &syn::ExprRange,
-        env: &Env,
-        pre: &mut Vec<Pre>,
-    ) -> Res<(Option<Val>, Option<Val>)> {
-        no_attrs(&r.attrs, r.span())?;
-        if !matches!(r.limits, syn::RangeLimits::HalfOpen(_)) {
-            return unsupported("inclusive range `..=`", r.span());
-        }
-        let a = match &r.start {
-            Some(e) => Some(self.typed(e, env, pre, &Ty::Usize, "range start")?),
-            None => None,
-        };
-        let b = match &r.end {
-            Some(e) => Some(self.typed(e, env, pre, &Ty::Usize, "range end")?),
-            None => None,
-        };
-        Ok((a, b))
-    }
-
-    /// `&base[index]` / `&mut base[index]` (also `base[index]` as an auto-referenced receiver)
-    fn index_ref(&mut self, ix: &syn::ExprIndex, env: &Env, pre: &mut Vec<Pre>) -> Res<Comp> {
-        no_attrs(&ix.attrs, ix.span())?;
-        let range = match &*ix.index {
-            Expr::Range(r) => Some(r),
-            Expr::Paren(p) => match &*p.expr {
-                Expr::Range(r) => Some(r),
-                _ => None,
+        match f.strip_prefix("gen_") {
+            Some(k) => match self.done.get(k) {
+                Some(d) => d.user,
+                None => k.contains("_loop"), // a loop of this very function: see stmt.rs
             },
-            _ => None,
-        };
-        if is_empty_array(&ix.expr) {
-            // `[][..]`: the empty slice
-            return match range {
-                Some(r) if r.start.is_none() && r.end.is_none() => Ok(Comp::Ret(Val::atom("empty_slice", Ty::Slice))),
-                _ => unsupported("indexing of an empty array literal other than `[][..]`", ix.span()),
-            };
-        }
-        let items = self_field(&ix.expr).as_deref() == Some("items");
-        if items && range.is_none() {
-            let i = self.typed(&ix.index, env, pre, &Ty::Usize, "array index")?;
-            return Ok(Comp::Op("idx".into(), vec![i], Ty::Ref));
-        }
-        let base = if items {
-            let n = self.fresh();
-            pre.push(Pre::Bind(Some(n.clone()), Comp::Op("items_slice".into(), vec![], Ty::Slice), true));
-            Val::atom(n, Ty::Slice)
-        } else {
-            self.typed(&ix.expr, env, pre, &Ty::Slice, "indexed expression")?
-        };
-        match range {
-            None => {
-                let i = self.typed(&ix.index, env, pre, &Ty::Usize, "slice index")?;
-                Ok(Comp::Op("sl_index".into(), vec![base, i], Ty::Ref))
-            }
-            Some(r) => {
-                let (a, b) = self.range_bounds(r, env, pre)?;
-                if a.is_none() && b.is_none() {
-                    return Ok(Comp::Ret(base));
-                }
-                let a = a.unwrap_or_else(|| Val::atom("0", Ty::Usize));
-                let b = b.unwrap_or_else(|| Val::app(format!("slen {}", base.paren()), Ty::Usize));
-                Ok(Comp::Op("sl_range".into(), vec![base, a, b], Ty::Slice))
-            }
+            None => false,
         }
     }
 
-    fn call_known(&mut self, name: &str, args: Vec<Val>, sp: Span) -> Res<Comp> {
-        let sig = self.sigs.get(name).expect("caller checked").clone();
-        if args.len() != sig.params.len() {
-            return unsupported(&format!("call of `{}` with {} argument(s)", name, args.len()), sp);
+    pub fn comp_user(&self, c: &Comp) -> bool {
+        match c {
+            Comp::Ret(_) => false,
+            Comp::Op(f, _, _) => self.op_user(f),
+            Comp::If(_, a, b, _) => self.comp_user(a) || self.comp_user(b),
+            Comp::Bind(_, m, k) => self.comp_user(m) || self.comp_user(k),
+            Comp::Let(_, _, k) => self.comp_user(k),
+            Comp::MatchOpt(_, _, n, s) => self.comp_user(n) || self.comp_user(s),
+            Comp::Match(_, arms, _) => arms.iter().any(|(_, c)| self.comp_user(c)),
+            Comp::Finally(a, b) | Comp::OnUnwind(a, b) => self.comp_user(a) || self.comp_user(b),
+            Comp::Fuel(c) => self.comp_user(c),
         }
-        for (a, (pn, pt)) in args.iter().zip(sig.params.iter()) {
-            if !a.ty.compat(pt) {
-                return Err(format!(
-                    "{}: argument `{}` of `{}` receives a {}, expected {}",
-                    at(sp), pn, name, a.ty.show(), pt.show()
-                ));
-            }
-        }
-        if !self.done.contains(name) {
-            self.need = Some(name.to_string());
-            return Err(format!("{}: call of `{}`, which has to be translated first", at(sp), name));
-        }
-        self.calls.insert(name.to_string());
-        let mut flat = vec![];
-        for a in args {
-            match (&a.ty, &a.parts) {
-                (Ty::Range, Some(p)) => flat.extend(p.iter().cloned()),
-                (Ty::Range, None) => return unsupported("range argument whose bounds are not known", sp),
-                _ => flat.push(a),
-            }
-        }
-        Ok(Comp::Op(format!("gen_{}", name), flat, sig.ret.clone()))
     }
 
-    // ------------------------------------------------------------ expressions
+    /// a record value with one field replaced
+    pub fn rec_update(&mut self, rec: &Val, field: &str, new: &Val, sp: Span) -> Res<Val> {
+        let name = match &rec.ty {
+            Ty::Rec(n) => n.clone(),
+            other => return unsupported(&format!("assignment to a field of a {}", other.show()), sp),
+        };
+        let sc = schema(&name).ok_or_else(|| format!("{}: no record for struct {}", at(sp), name))?;
+        let mut args: Vec<String> = vec![];
+        let mut hit = false;
+        for (f, _, k) in &sc.fields {
+            match k {
+                FieldKind::Plain(p, t) => {
+                    if *f == field {
+                        if !new.ty.compat(t) {
+                            return Err(format!("{}: field `{}` receives a {}, expected {}", at(sp), field, new.ty.show(), t.show()));
+                        }
+                        hit = true;
+                        args.push(new.paren());
+                    } else {
+                        args.push(format!("({} {})", p, rec.paren()));
+                    }
+                }
+                FieldKind::Range(a, b) => {
+                    if *f == field {
+                        match (&new.ty, &new.parts) {
+                            (Ty::Range, Some(p)) => {
+                                hit = true;
+                                args.push(p[0].paren());
+                                args.push(p[1].paren());
+                            }
+                            _ => return unsupported("assignment of something other than a range with known bounds to a range field", sp),
+                        }
+                    } else {
+                        args.push(format!("({} {})", a, rec.paren()));
+                        args.push(format!("({} {})", b, rec.paren()));
+                    }
+                }
+                _ => {
+                    if *f == field {
+                        return unsupported(&format!("assignment to the field `{}`, which the model does not represent", field), sp);
+                    }
+                }
+            }
+        }
+        if !hit {
+            return unsupported(&format!("field `{}` of {}", field, name), sp);
+        }
+        Ok(Val::app(format!("{} {}", sc.ctor, args.join(" ")), Ty::Rec(name)))
+    }
 
-    /// the machine computation an expression stands for; operands go to `pre`.
-    /// `tail`: the value of this expression is the value of the function.
-    fn comp(&mut self, e: &Expr, env: &Env, pre: &mut Vec<Pre>, tail: bool) -> Res<Comp> {
-        match e {
-            Expr::Paren(p) => {
-                no_attrs(&p.attrs, p.span())?;
-                self.comp(&p.expr, env, pre, tail)
+    /// `rec.field`
+    pub fn rec_field(&self, rec: &Val, field: &str, sp: Span) -> Res<Val> {
+        let name = match &rec.ty {
+            Ty::Rec(n) => n.clone(),
+            other => return unsupported(&format!("field `{}` of a {}", field, other.show()), sp),
+        };
+        let sc = schema(&name).ok_or_else(|| format!("{}: no record for struct {}", at(sp), name))?;
+        for (f, _, k) in &sc.fields {
+            if *f != field {
+                continue;
             }
-            Expr::Group(g) => {
-                no_attrs(&g.attrs, g.span())?;
-                self.comp(&g.expr, env, pre, tail)
-            }
-            Expr::Lit(l) => {
-                no_attrs(&l.attrs, l.span())?;
-                match &l.lit {
-                    Lit::Int(i) => {
-                        if !(i.suffix().is_empty() || i.suffix() == "usize") {
-                            return unsupported(&format!("integer literal with suffix `{}`", i.suffix()), l.span());
-                        }
-                        let v: u128 = i
-                            .base10_parse()
-                            .map_err(|_| format!("{}: integer literal out of range", at(l.span())))?;
-                        if v > u64::MAX as u128 {
-                            return Err(format!("{}: integer literal does not fit in a 64-bit usize", at(l.span())));
-                        }
-                        Ok(Comp::Ret(Val::atom(v.to_string(), Ty::Usize)))
-                    }
-                    Lit::Bool(b) => Ok(Comp::Ret(Val::atom(if b.value { "true" } else { "false" }, Ty::Bool))),
-                    _ => unsupported("literal that is neither an integer nor a boolean", l.span()),
-                }
-            }
-            Expr::Path(p) => {
-                no_attrs(&p.attrs, p.span())?;
-                let segs = path_segments(p)?;
-                let segs: Vec<&str> = segs.iter().map(|s| s.as_str()).collect();
-                match segs.as_slice() {
-                    [x] if env.contains_key(*x) => Ok(Comp::Ret(env[*x].clone())),
-                    ["N"] if self.method => Ok(Comp::Op("get_cap".into(), vec![], Ty::Usize)),
-                    ["None"] => Ok(Comp::Ret(Val::atom("None", Ty::Opt(Box::new(Ty::Any))))),
-                    ["self"] => unsupported("`self` used as a value", p.span()),
-                    [x] => Err(format!("{}: unknown variable or constant `{}`", at(p.span()), x)),
-                    ["usize", "MAX"] => Ok(Comp::Ret(Val::atom("usize_max", Ty::Usize))),
-                    ["usize", "MIN"] => Ok(Comp::Ret(Val::atom("0", Ty::Usize))),
-                    _ => unsupported(&format!("path `{}`", segs.join("::")), p.span()),
-                }
-            }
-            Expr::Field(f) => {
-                no_attrs(&f.attrs, f.span())?;
-                let member = match &f.member {
-                    syn::Member::Named(n) => n.to_string(),
-                    syn::Member::Unnamed(_) => return unsupported("tuple field access", f.span()),
-                };
-                if is_self(&f.base) {
-                    if !self.method {
-                        return unsupported("`self` in a free function", f.span());
-                    }
-                    return match member.as_str() {
-                        "size" => Ok(Comp::Op("get_size".into(), vec![], Ty::Usize)),
-                        "start" => Ok(Comp::Op("get_start".into(), vec![], Ty::Usize)),
-                        "items" => unsupported("`self.items` used as a value (only indexing, split_at, rotate_left, as_mut_ptr are known)", f.span()),
-                        m => unsupported(&format!("field `self.{}`", m), f.span()),
-                    };
-                }
-                let b = self.val(&f.base, env, pre)?;
-                match (&b.ty, &b.parts, member.as_str()) {
-                    (Ty::Range, Some(p), "start") => Ok(Comp::Ret(p[0].clone())),
-                    (Ty::Range, Some(p), "end") => Ok(Comp::Ret(p[1].clone())),
-                    _ => unsupported(&format!("field `{}` of a {}", member, b.ty.show()), f.span()),
-                }
-            }
-            Expr::Cast(c) => {
-                no_attrs(&c.attrs, c.span())?;
-                let v = self.val(&c.expr, env, pre)?;
-                let target = type_of(&c.ty)?;
-                match (&v.ty, &target) {
-                    (Ty::Bool, Ty::Usize) => Ok(Comp::Ret(Val::app(format!("b2z {}", v.paren()), Ty::Usize))),
-                    (Ty::Usize, Ty::Usize) | (Ty::Bool, Ty::Bool) => Ok(Comp::Ret(v)),
-                    _ => unsupported(&format!("cast from {} to {}", v.ty.show(), target.show()), c.span()),
-                }
-            }
-            Expr::Unary(u) => {
-                no_attrs(&u.attrs, u.span())?;
-                let v = self.val(&u.expr, env, pre)?;
-                match (&u.op, &v.ty) {
-                    (UnOp::Not(_), Ty::Bool) => Ok(Comp::Ret(Val::app(format!("negb {}", v.paren()), Ty::Bool))),
-                    _ => unsupported(&format!("unary operator on {}", v.ty.show()), u.span()),
-                }
-            }
-            Expr::Binary(b) => self.binary(b, env, pre),
-            Expr::Assign(a) => {
-                no_attrs(&a.attrs, a.span())?;
-                let setter = match self_field(&a.left).as_deref() {
-                    Some("size") => "set_size",
-                    Some("start") => "set_start",
-                    _ => return unsupported("assignment to something other than self.size / self.start", a.left.span()),
-                };
-                let v = self.typed(&a.right, env, pre, &Ty::Usize, "assigned value")?;
-                Ok(Comp::Op(setter.into(), vec![v], Ty::Unit))
-            }
-            Expr::Reference(r) => {
-                no_attrs(&r.attrs, r.span())?;
-                match &*r.expr {
-                    Expr::Index(ix) => self.index_ref(ix, env, pre),
-                    x if is_empty_array(x) => Ok(Comp::Ret(Val::atom("empty_slice", Ty::Slice))),
-                    other => unsupported(
-                        "`&` / `&mut` of something other than an indexing expression or `[]`",
-                        other.span(),
-                    ),
-                }
-            }
-            // a place used through auto-ref (method receiver): the slot
-            Expr::Index(ix) => self.index_ref(ix, env, pre),
-            Expr::Range(r) => {
-                let (a, b) = self.range_bounds(r, env, pre)?;
-                match (a, b) {
-                    (Some(a), Some(b)) => Ok(Comp::Ret(Val {
-                        tm: format!("({}, {})", a.tm, b.tm),
+            return match k {
+                FieldKind::Plain(p, t) => Ok(Val::app(format!("{} {}", p, rec.paren()), t.clone())),
+                FieldKind::Range(a, b) => {
+                    let va = Val::app(format!("{} {}", a, rec.paren()), Ty::Usize);
+                    let vb = Val::app(format!("{} {}", b, rec.paren()), Ty::Usize);
+                    Ok(Val {
+                        tm: format!("({}, {})", va.tm, vb.tm),
                         ty: Ty::Range,
                         atomic: true,
-                        parts: Some(vec![a, b]),
+                        parts: Some(vec![va, vb]),
                         ptr_base: false,
-                    })),
-                    _ => unsupported("range value without both bounds", r.span()),
+                    })
                 }
-            }
-            Expr::Tuple(t) => {
-                no_attrs(&t.attrs, t.span())?;
-                if t.elems.is_empty() {
-                    return Ok(Comp::unit());
+                FieldKind::Buf => Ok(Val::atom("<buffer>", Ty::Buf)),
+                FieldKind::FixedPtrBase => {
+                    Ok(Val { tm: "0".into(), ty: Ty::Ptr, atomic: true, parts: None, ptr_base: true })
                 }
-                if t.elems.len() < 2 {
-                    return unsupported("1-tuple expression", t.span());
-                }
-                let mut vs = vec![];
-                for x in &t.elems {
-                    let v = self.val(x, env, pre)?;
-                    if v.ty == Ty::Range {
-                        return unsupported("range inside a tuple", x.span());
-                    }
-                    vs.push(v);
-                }
-                Ok(Comp::Ret(Val {
-                    tm: format!("({})", vs.iter().map(|v| v.tm.clone()).collect::<Vec<_>>().join(", ")),
-                    ty: Ty::Tuple(vs.iter().map(|v| v.ty.clone()).collect()),
-                    atomic: true,
-                    parts: Some(vs),
-                    ptr_base: false,
-                }))
-            }
-            Expr::Call(c) => self.call(c, env, pre),
-            Expr::MethodCall(m) => self.method_call(m, env, pre),
-            Expr::Try(t) => {
-                no_attrs(&t.attrs, t.span())?;
-                let v = self.val(&t.expr, env, pre)?;
-                let inner = match &v.ty {
-                    Ty::Opt(i) if **i != Ty::Any => (**i).clone(),
-                    other => return unsupported(&format!("`?` on a {}", other.show()), t.span()),
-                };
-                if !self.can_return {
-                    return unsupported("`?` inside a nested expression (it leaves the function)", t.span());
-                }
-                if !matches!(self.ret_ty, Ty::Opt(_)) {
-                    return unsupported("`?` on an Option in a function that does not return an Option", t.span());
-                }
-                let n = self.fresh();
-                pre.push(Pre::Try(n.clone(), v));
-                Ok(Comp::Ret(Val::atom(n, inner)))
-            }
-            Expr::If(i) => {
-                no_attrs(&i.attrs, i.span())?;
-                if matches!(&*i.cond, Expr::Let(_)) {
-                    return unsupported("if let", i.span());
-                }
-                let c = self.typed(&i.cond, env, pre, &Ty::Bool, "condition")?;
-                let (a, _) = self.block(&i.then_branch.stmts, env.clone(), tail)?;
-                let b = match &i.else_branch {
-                    Some((_, e)) => {
-                        let saved = self.can_return;
-                        self.can_return = saved && tail;
-                        let mut bpre = vec![];
-                        let b = self.comp(e, env, &mut bpre, tail);
-                        self.can_return = saved;
-                        wrap(bpre, b?)
-                    }
-                    None => Comp::unit(),
-                };
-                let (ta, tb) = (a.ty(), b.ty());
-                if !ta.compat(&tb) {
-                    return unsupported(
-                        &format!("`if` whose branches have types {} and {}", ta.show(), tb.show()),
-                        i.span(),
-                    );
-                }
-                Ok(Comp::If(c, Box::new(a), Box::new(b), ta.join(&tb)))
-            }
-            Expr::Block(b) => {
-                no_attrs(&b.attrs, b.span())?;
-                if b.label.is_some() {
-                    return unsupported("labelled block", b.span());
-                }
-                let (c, _) = self.block(&b.block.stmts, env.clone(), tail)?;
-                Ok(c)
-            }
-            Expr::Unsafe(u) => {
-                no_attrs(&u.attrs, u.span())?;
-                let (c, _) = self.block(&u.block.stmts, env.clone(), tail)?;
-                Ok(c)
-            }
-            Expr::Return(r) => Err(format!(
-                "{}: `return` inside an expression is not supported (only as a statement)",
-                at(r.span())
-            )),
-            Expr::Macro(m) => unsupported(
-                &format!(
-                    "macro `{}!` in expression position",
-                    m.mac.path.segments.iter().map(|s| s.ident.to_string()).collect::<Vec<_>>().join("::")
-                ),
-                m.span(),
-            ),
-            other => unsupported(&describe(other), other.span()),
-        }
-    }
-
-    fn binary(&mut self, b: &syn::ExprBinary, env: &Env, pre: &mut Vec<Pre>) -> Res<Comp> {
-        no_attrs(&b.attrs, b.span())?;
-        match b.op {
-            BinOp::And(_) | BinOp::Or(_) => {
-                let l = self.typed(&b.left, env, pre, &Ty::Bool, "operand of `&&` / `||`")?;
-                let mut rpre = vec![];
-                let r = self.typed(&b.right, env, &mut rpre, &Ty::Bool, "operand of `&&` / `||`")?;
-                // the right operand is only evaluated sometimes: it may read the
-                // state but must not be able to fail or write
-                if !rpre.iter().all(|p| p.harmless()) {
-                    return unsupported(
-                        "short-circuit operator whose right operand performs checked arithmetic or a call",
-                        b.span(),
-                    );
-                }
-                pre.append(&mut rpre);
-                let op = if matches!(b.op, BinOp::And(_)) { "&&" } else { "||" };
-                Ok(Comp::Ret(Val::app(format!("{} {} {}", l.paren(), op, r.paren()), Ty::Bool)))
-            }
-            BinOp::Lt(_) | BinOp::Le(_) | BinOp::Gt(_) | BinOp::Ge(_) | BinOp::Eq(_) | BinOp::Ne(_) => {
-                // both operands are evaluated, left first; the comparison itself is pure
-                let l = self.val(&b.left, env, pre)?;
-                let r = self.val(&b.right, env, pre)?;
-                if l.ty != r.ty {
-                    return unsupported("comparison of values of different types", b.span());
-                }
-                let (lp, rp) = (l.paren(), r.paren());
-                let tm = match (&b.op, &l.ty) {
-                    (BinOp::Lt(_), Ty::Usize) => format!("{} <? {}", lp, rp),
-                    (BinOp::Le(_), Ty::Usize) => format!("{} <=? {}", lp, rp),
-                    // a > b is b < a, a >= b is b <= a (same truth value on Z)
-                    (BinOp::Gt(_), Ty::Usize) => format!("{} <? {}", rp, lp),
-                    (BinOp::Ge(_), Ty::Usize) => format!("{} <=? {}", rp, lp),
-                    (BinOp::Eq(_), Ty::Usize) => format!("{} =? {}", lp, rp),
-                    (BinOp::Ne(_), Ty::Usize) => format!("negb ({} =? {})", lp, rp),
-                    (BinOp::Eq(_), Ty::Bool) => format!("Bool.eqb {} {}", lp, rp),
-                    (BinOp::Ne(_), Ty::Bool) => format!("xorb {} {}", lp, rp),
-                    _ => return unsupported(&format!("comparison on {}", l.ty.show()), b.span()),
-                };
-                Ok(Comp::Ret(Val::app(tm, Ty::Bool)))
-            }
-            BinOp::Add(_) | BinOp::Sub(_) | BinOp::Mul(_) | BinOp::Rem(_) => {
-                let op = match b.op {
-                    BinOp::Add(_) => "uadd",
-                    BinOp::Sub(_) => "usub",
-                    BinOp::Mul(_) => "umul",
-                    _ => "urem",
-                };
-                let l = self.typed(&b.left, env, pre, &Ty::Usize, "arithmetic operand")?;
-                let r = self.typed(&b.right, env, pre, &Ty::Usize, "arithmetic operand")?;
-                Ok(Comp::Op(op.into(), vec![l, r], Ty::Usize))
-            }
-            BinOp::AddAssign(_) | BinOp::SubAssign(_) => {
-                // for a primitive type the right operand is evaluated first, then the place is read
-                let (getter, setter) = match self_field(&b.left).as_deref() {
-                    Some("size") => ("get_size", "set_size"),
-                    Some("start") => ("get_start", "set_start"),
-                    _ => return unsupported("compound assignment to something other than self.size / self.start", b.left.span()),
-                };
-                let r = self.typed(&b.right, env, pre, &Ty::Usize, "arithmetic operand")?;
-                let cur = self.fresh();
-                pre.push(Pre::Bind(Some(cur.clone()), Comp::Op(getter.into(), vec![], Ty::Usize), true));
-                let op = if matches!(b.op, BinOp::AddAssign(_)) { "uadd" } else { "usub" };
-                let v = self.fresh();
-                pre.push(Pre::Bind(
-                    Some(v.clone()),
-                    Comp::Op(op.into(), vec![Val::atom(cur, Ty::Usize), r], Ty::Usize),
-                    false,
-                ));
-                Ok(Comp::Op(setter.into(), vec![Val::atom(v, Ty::Usize)], Ty::Unit))
-            }
-            _ => unsupported("binary operator (only + - * % < <= > >= == != && || += -= are known)", b.span()),
-        }
-    }
-
-    fn call(&mut self, c: &syn::ExprCall, env: &Env, pre: &mut Vec<Pre>) -> Res<Comp> {
-        no_attrs(&c.attrs, c.span())?;
-        let f = match &*c.func {
-            Expr::Path(p) => path_segments(p)?,
-            other => return unsupported("call of something that is not a plain function name", other.span()),
-        };
-        let f: Vec<&str> = f.iter().map(|s| s.as_str()).collect();
-        let nargs = c.args.len();
-        match (f.as_slice(), nargs) {
-            (["Some"], 1) => {
-                let v = self.val(&c.args[0], env, pre)?;
-                if matches!(v.ty, Ty::Range | Ty::Unit) {
-                    return unsupported(&format!("Some of a {}", v.ty.show()), c.span());
-                }
-                let ty = Ty::Opt(Box::new(v.ty.clone()));
-                Ok(Comp::Ret(Val::app(format!("Some {}", v.paren()), ty)))
-            }
-            (["Err"], 1) => {
-                let v = self.typed(&c.args[0], env, pre, &Ty::Elem, "payload of Err")?;
-                Ok(Comp::Ret(Val::app(format!("Some {}", v.paren()), Ty::ResUnitElem)))
-            }
-            (["Ok"], 1) => match &c.args[0] {
-                Expr::Tuple(t) if t.elems.is_empty() => Ok(Comp::Ret(Val::atom("None", Ty::ResUnitElem))),
-                other => unsupported("Ok(..) of something other than ()", other.span()),
-            },
-            (["slice_assume_init_ref"], 1) | (["slice_assume_init_mut"], 1) => {
-                // a cast of the element type (checked in main.rs): the same view
-                let v = self.typed(&c.args[0], env, pre, &Ty::Slice, "argument of slice_assume_init_*")?;
-                Ok(Comp::Ret(v))
-            }
-            (["mem", "replace"], 2) | (["core", "mem", "replace"], 2) => {
-                let d = self.typed(&c.args[0], env, pre, &Ty::Ref, "destination of mem::replace")?;
-                let v = self.typed(&c.args[1], env, pre, &Ty::Elem, "new value of mem::replace")?;
-                Ok(Comp::Op("gen_mem_replace".into(), vec![d, v], Ty::Elem))
-            }
-            (["ptr", "copy"], 3) | (["core", "ptr", "copy"], 3) => {
-                let s = self.typed(&c.args[0], env, pre, &Ty::Ptr, "source of ptr::copy")?;
-                let d = self.typed(&c.args[1], env, pre, &Ty::Ptr, "destination of ptr::copy")?;
-                let n = self.typed(&c.args[2], env, pre, &Ty::Usize, "count of ptr::copy")?;
-                Ok(Comp::Op("raw_copy".into(), vec![s, d, n], Ty::Unit))
-            }
-            (["ptr", "swap_nonoverlapping"], 3) | (["core", "ptr", "swap_nonoverlapping"], 3) => {
-                let a = self.typed(&c.args[0], env, pre, &Ty::Ref, "operand of ptr::swap_nonoverlapping")?;
-                let b = self.typed(&c.args[1], env, pre, &Ty::Ref, "operand of ptr::swap_nonoverlapping")?;
-                let n = self.typed(&c.args[2], env, pre, &Ty::Usize, "count of ptr::swap_nonoverlapping")?;
-                if n.tm != "1" {
-                    return unsupported("ptr::swap_nonoverlapping with a count other than the literal 1", c.span());
-                }
-                Ok(Comp::Op("gen_swap_nonoverlapping".into(), vec![a, b], Ty::Unit))
-            }
-            ([name], _) | (["crate", name], _) | (["self", name], _)
-                if self.sigs.get(*name).map(|s| !s.method).unwrap_or(false) =>
-            {
-                let mut args = vec![];
-                for a in &c.args {
-                    args.push(self.val(a, env, pre)?);
-                }
-                self.call_known(name, args, c.span())
-            }
-            _ => unsupported(&format!("call of `{}` with {} argument(s)", f.join("::"), nargs), c.span()),
-        }
-    }
-
-    fn method_call(&mut self, m: &syn::ExprMethodCall, env: &Env, pre: &mut Vec<Pre>) -> Res<Comp> {
-        no_attrs(&m.attrs, m.span())?;
-        if m.turbofish.is_some() {
-            return unsupported("method call with turbofish", m.span());
-        }
-        let name = m.method.to_string();
-        let nargs = m.args.len();
-        // a method of the buffer itself
-        if is_self(&m.receiver) {
-            if !self.method {
-                return unsupported("`self` in a free function", m.span());
-            }
-            if let Some(ext) = self.exts.get(name.as_str()) {
-                if !self.sigs.contains_key(&name) || !self.done.contains(&name) {
-                    // not translated: the caller is rendered relative to the hand-written model
-                    if nargs != ext.params.len() {
-                        return unsupported(&format!("call of `{}` with {} argument(s)", name, nargs), m.span());
-                    }
-                    let mut args = vec![];
-                    for (a, t) in m.args.iter().zip(ext.params.iter()) {
-                        let v = self.typed(a, env, pre, t, "argument")?;
-                        match (&v.ty, &v.parts) {
-                            (Ty::Range, Some(p)) => args.extend(p.iter().cloned()),
-                            (Ty::Range, None) => return unsupported("range argument whose bounds are not known", a.span()),
-                            _ => args.push(v),
-                        }
-                    }
-                    self.ext_calls.insert(name.clone());
-                    return Ok(Comp::Op(ext.coq.to_string(), args, ext.ret.clone()));
-                }
-            }
-            return match self.sigs.get(&name) {
-                Some(s) if s.method => {
-                    let mut args = vec![];
-                    for a in &m.args {
-                        args.push(self.val(a, env, pre)?);
-                    }
-                    self.call_known(&name, args, m.span())
-                }
-                _ => unsupported(&format!("call of the method `self.{}` (not one of the translated functions)", name), m.span()),
+                FieldKind::Ignore(_) => unsupported(&format!("use of the field `{}`", field), sp),
             };
         }
-        // a method of the items array
-        if self_field(&m.receiver).as_deref() == Some("items") {
-            if !self.method {
-                return unsupported("`self` in a free function", m.span());
-            }
-            return match (name.as_str(), nargs) {
-                ("split_at", 1) | ("split_at_mut", 1) => {
-                    let it = self.fresh();
-                    pre.push(Pre::Bind(Some(it.clone()), Comp::Op("items_slice".into(), vec![], Ty::Slice), true));
-                    let k = self.typed(&m.args[0], env, pre, &Ty::Usize, "argument of split_at")?;
-                    Ok(Comp::Op(
-                        "sl_split_at".into(),
-                        vec![Val::atom(it, Ty::Slice), k],
-                        Ty::Tuple(vec![Ty::Slice, Ty::Slice]),
-                    ))
-                }
-                ("rotate_left", 1) => {
-                    let k = self.typed(&m.args[0], env, pre, &Ty::Usize, "argument of rotate_left")?;
-                    Ok(Comp::Op("gen_rotate_left".into(), vec![k], Ty::Unit))
-                }
-                ("as_mut_ptr", 0) | ("as_ptr", 0) => Ok(Comp::Ret(Val {
-                    tm: "0".into(),
-                    ty: Ty::Ptr,
-                    atomic: true,
-                    parts: None,
-                    ptr_base: true,
-                })),
-                _ => unsupported(&format!("method `{}` of self.items with {} argument(s)", name, nargs), m.span()),
-            };
-        }
-        let recv = self.val(&m.receiver, env, pre)?;
-        let mut args = vec![];
-        for a in &m.args {
-            args.push(self.val(a, env, pre)?);
-        }
-        let all_usize = recv.ty == Ty::Usize && args.iter().all(|a| a.ty == Ty::Usize);
-        let bin = |f: &str, ty: Ty| -> Res<Comp> {
-            Ok(Comp::Ret(Val::app(format!("{} {} {}", f, recv.paren(), args[0].paren()), ty)))
-        };
-        match (&recv.ty, name.as_str(), nargs) {
-            (Ty::Usize, "overflowing_add", 1) if all_usize => {
-                bin("overflowing_add", Ty::Tuple(vec![Ty::Usize, Ty::Bool]))
-            }
-            (Ty::Usize, "checked_add", 1) if all_usize => bin("checked_add", Ty::Opt(Box::new(Ty::Usize))),
-            (Ty::Usize, "checked_sub", 1) if all_usize => bin("checked_sub", Ty::Opt(Box::new(Ty::Usize))),
-            (Ty::Usize, "wrapping_add", 1) if all_usize => Ok(Comp::Ret(Val::app(
-                format!("({} + {}) mod W", recv.paren(), args[0].paren()),
-                Ty::Usize,
-            ))),
-            (Ty::Usize, "wrapping_sub", 1) if all_usize => Ok(Comp::Ret(Val::app(
-                format!("({} - {}) mod W", recv.paren(), args[0].paren()),
-                Ty::Usize,
-            ))),
-            (Ty::Usize, "min", 1) if all_usize => bin("Z.min", Ty::Usize),
-            (Ty::Usize, "max", 1) if all_usize => bin("Z.max", Ty::Usize),
-            // a reference to a slot is the slot: MaybeUninit<T> -> T changes nothing
-            (Ty::Ref, "assume_init_ref", 0) | (Ty::Ref, "assume_init_mut", 0) => Ok(Comp::Ret(recv)),
-            (Ty::Ref, "assume_init_read", 0) => Ok(Comp::Op("read_slot".into(), vec![recv], Ty::Elem)),
-            (Ty::Ref, "write", 1) if args[0].ty == Ty::Elem => {
-                Ok(Comp::Op("write_slot".into(), vec![recv, args[0].clone()], Ty::Unit))
-            }
-            (Ty::Ptr, "add", 1) if args[0].ty == Ty::Usize => {
-                let k = &args[0];
-                if recv.ptr_base {
-                    Ok(Comp::Ret(Val { tm: k.tm.clone(), ty: Ty::Ptr, atomic: k.atomic, parts: None, ptr_base: false }))
-                } else {
-                    Ok(Comp::Ret(Val::app(format!("{} + {}", recv.paren(), k.paren()), Ty::Ptr)))
-                }
-            }
-            (Ty::Slice, "split_at", 1) | (Ty::Slice, "split_at_mut", 1) if args[0].ty == Ty::Usize => Ok(Comp::Op(
-                "sl_split_at".into(),
-                vec![recv, args[0].clone()],
-                Ty::Tuple(vec![Ty::Slice, Ty::Slice]),
-            )),
-            (Ty::Range, "is_empty", 0) if recv.parts.is_some() => {
-                let p = recv.parts.as_ref().unwrap();
-                Ok(Comp::Ret(Val::app(format!("{} <=? {}", p[1].paren(), p[0].paren()), Ty::Bool)))
-            }
-            (Ty::Slice, "len", 0) => Ok(Comp::Ret(Val::app(format!("slen {}", recv.paren()), Ty::Usize))),
-            _ => unsupported(
-                &format!("method `{}` on a {} with {} argument(s)", name, recv.ty.show(), nargs),
-                m.span(),
-            ),
-        }
+        unsupported(&format!("field `{}` of {}", field, name), sp)
     }
-
-    // ------------------------------------------------------------ statements
-
-    fn bind_pattern(&mut self, p: &Pat, v: &Val, env: &mut Env) -> Res<String> {
-        match p {
-            Pat::Ident(pi) => {
-                no_attrs(&pi.attrs, pi.span())?;
-                if pi.by_ref.is_some() || pi.mutability.is_some() || pi.subpat.is_some() {
-                    return unsupported("`mut`, `ref` or `@` binding", pi.span());
-                }
-                let n = self.coq_ident(&pi.ident)?;
-                env.insert(pi.ident.to_string(), Val::atom(n.clone(), v.ty.clone()));
-                Ok(n)
-            }
-            Pat::Wild(_) => Ok("_".into()),
-            Pat::Paren(pp) => self.bind_pattern(&pp.pat, v, env),
-            Pat::Type(pt) => {
-                no_attrs(&pt.attrs, pt.span())?;
-                let t = type_of(&pt.ty)?;
-                if !t.compat(&v.ty) {
-                    return Err(format!(
-                        "{}: binding annotated {} receives a value of type {}",
-                        at(pt.span()), t.show(), v.ty.show()
-                    ));
-                }
-                self.bind_pattern(&pt.pat, v, env)
-            }
-            Pat::Tuple(pt) => {
-                no_attrs(&pt.attrs, pt.span())?;
-                let tys = match &v.ty {
-                    Ty::Tuple(t) if t.len() == pt.elems.len() => t.clone(),
-                    _ => return unsupported(&format!("tuple pattern against {}", v.ty.show()), pt.span()),
-                };
-                let mut names = vec![];
-                for (q, t) in pt.elems.iter().zip(tys.iter()) {
-                    match q {
-                        Pat::Ident(_) | Pat::Wild(_) => {
-                            names.push(self.bind_pattern(q, &Val::atom("_", t.clone()), env)?)
-                        }
-                        _ => return unsupported("nested pattern", q.span()),
-                    }
-                }
-                Ok(format!("'({})", names.join(", ")))
-            }
-            other => unsupported("pattern (only names, `_` and flat tuples are known)", other.span()),
-        }
-    }
-
-    fn assertion(&mut self, mac: &syn::Macro, env: &Env, pre: &mut Vec<Pre>) -> Res<()> {
-        let name = mac.path.segments.iter().map(|s| s.ident.to_string()).collect::<Vec<_>>().join("::");
-        let (op, ncond) = match name.as_str() {
-            "debug_assert" => ("dassert", 1),
-            "assert" => ("assert_", 1),
-            "debug_assert_eq" | "debug_assert_ne" => ("dassert", 2),
-            "assert_eq" | "assert_ne" => ("assert_", 2),
-            _ => return unsupported(&format!("macro `{}!`", name), mac.span()),
-        };
-        let args: Vec<Expr> = mac
-            .parse_body_with(syn::punctuated::Punctuated::<Expr, syn::Token![,]>::parse_terminated)
-            .map_err(|e| format!("{}: cannot parse the arguments of {}!: {}", at(mac.span()), name, e))?
-            .into_iter()
-            .collect();
-        if args.len() < ncond {
-            return unsupported("assertion without a condition", mac.span());
-        }
-        // a message is only evaluated when the assertion fails; a plain string is harmless
-        match &args[ncond..] {
-            [] => {}
-            [Expr::Lit(l)] if matches!(l.lit, Lit::Str(_)) => {}
-            _ => return unsupported("assertion message with format arguments", mac.span()),
-        }
-        let mut own: Vec<Pre> = vec![];
-        let cond = if ncond == 1 {
-            self.typed(&args[0], env, &mut own, &Ty::Bool, "asserted condition")?
-        } else {
-            let a = self.typed(&args[0], env, &mut own, &Ty::Usize, "operand of assert_eq / assert_ne")?;
-            let b = self.typed(&args[1], env, &mut own, &Ty::Usize, "operand of assert_eq / assert_ne")?;
-            let eq = format!("{} =? {}", a.paren(), b.paren());
-            if name.ends_with("_ne") {
-                Val::app(format!("negb ({})", eq), Ty::Bool)
-            } else {
-                Val::app(eq, Ty::Bool)
-            }
-        };
-        // a debug assertion is not evaluated at all in a release build: its operands
-        // may read the state but must not contain operations that could panic or write
-        if op == "dassert" && !own.iter().all(|p| p.harmless()) {
-            return unsupported(
-                "debug assertion whose condition performs checked arithmetic or a call (not evaluated in release builds)",
-                mac.span(),
-            );
-        }
-        pre.append(&mut own);
-        pre.push(Pre::Bind(None, Comp::Op(op.into(), vec![cond], Ty::Unit), false));
-        Ok(())
-    }
-
-    /// a statement list. `tail`: falling off the end of this list (or returning
-    /// from inside it) ends the function. The flag in the result says whether
-    /// every path through the list ends in `return`.
-    pub fn block(&mut self, stmts: &[Stmt], env: Env, tail: bool) -> Res<(Comp, bool)> {
-        let saved = self.can_return;
-        self.can_return = saved && tail;
-        let r = self.block_inner(stmts, env, tail);
-        self.can_return = saved;
-        r
-    }
-
-    fn block_inner(&mut self, stmts: &[Stmt], mut env: Env, tail: bool) -> Res<(Comp, bool)> {
-        let mut pre: Vec<Pre> = vec![];
-        for (i, st) in stmts.iter().enumerate() {
-            let last = i + 1 == stmts.len();
-            match st {
-                Stmt::Local(l) => {
-                    no_attrs(&l.attrs, l.span())?;
-                    let init = match &l.init {
-                        Some(init) => init,
-                        None => return unsupported("`let` without initialiser", l.span()),
-                    };
-                    if init.diverge.is_some() {
-                        return unsupported("let-else", l.span());
-                    }
-                    let c = self.comp(&init.expr, &env, &mut pre, false)?;
-                    match c {
-                        // ranges and raw pointers are only names for their bounds / offset
-                        Comp::Ret(v) if v.ty == Ty::Range || v.ty == Ty::Ptr => match &l.pat {
-                            Pat::Ident(pi) if pi.by_ref.is_none() && pi.mutability.is_none() && pi.subpat.is_none() => {
-                                self.coq_ident(&pi.ident)?;
-                                env.insert(pi.ident.to_string(), v);
-                            }
-                            other => return unsupported("pattern binding a range or a raw pointer", other.span()),
-                        },
-                        Comp::Ret(v) => {
-                            let name = self.bind_pattern(&l.pat, &v, &mut env)?;
-                            pre.push(Pre::Let(name, v));
-                        }
-                        c => {
-                            let ty = c.ty();
-                            if ty == Ty::Unit {
-                                return unsupported("`let` of a unit-valued expression", l.span());
-                            }
-                            let name = self.bind_pattern(&l.pat, &Val::atom("_", ty), &mut env)?;
-                            pre.push(Pre::Bind(Some(name), c, false));
-                        }
-                    }
-                }
-                Stmt::Macro(m) => {
-                    no_attrs(&m.attrs, m.span())?;
-                    self.assertion(&m.mac, &env, &mut pre)?;
-                }
-                Stmt::Item(it) => {
-                    return unsupported("item (struct / impl / fn) inside a function body", it.span())
-                }
-                Stmt::Expr(Expr::Return(r), _) => {
-                    no_attrs(&r.attrs, r.span())?;
-                    if !tail || !self.can_return {
-                        return Err(format!(
-                            "{}: `return` from inside a nested expression is not supported",
-                            at(r.span())
-                        ));
-                    }
-                    if !last {
-                        return Err(format!("{}: code after `return`", at(stmts[i + 1].span())));
-                    }
-                    let c = match &r.expr {
-                        Some(e) => self.comp(e, &env, &mut pre, false)?,
-                        None => Comp::unit(),
-                    };
-                    if !c.ty().compat(&self.ret_ty) {
-                        return Err(format!(
-                            "{}: `return` of a {} in a function returning {}",
-                            at(r.span()), c.ty().show(), self.ret_ty.show()
-                        ));
-                    }
-                    return Ok((wrap(pre, c), true));
-                }
-                // `if c { ...; return e; }` followed by the rest of the block
-                Stmt::Expr(Expr::If(f), _) if !last && f.else_branch.is_none() && tail && ends_in_return(&f.then_branch.stmts) => {
-                    no_attrs(&f.attrs, f.span())?;
-                    if matches!(&*f.cond, Expr::Let(_)) {
-                        return unsupported("if let", f.span());
-                    }
-                    let c = self.typed(&f.cond, &env, &mut pre, &Ty::Bool, "condition")?;
-                    let (a, adiv) = self.block(&f.then_branch.stmts, env.clone(), true)?;
-                    if !adiv {
-                        return unsupported("`if` statement whose body only sometimes returns", f.span());
-                    }
-                    let (b, bdiv) = self.block(&stmts[i + 1..], env.clone(), true)?;
-                    if !a.ty().compat(&b.ty()) {
-                        return Err(format!(
-                            "{}: early return of a {} but the rest of the block yields {}",
-                            at(f.span()), a.ty().show(), b.ty().show()
-                        ));
-                    }
-                    let ty = a.ty().join(&b.ty());
-                    return Ok((wrap(pre, Comp::If(c, Box::new(a), Box::new(b), ty)), bdiv));
-                }
-                Stmt::Expr(e, semi) => {
-                    if last && semi.is_none() {
-                        let c = self.comp(e, &env, &mut pre, tail)?;
-                        return Ok((wrap(pre, c), false));
-                    }
-                    // an expression statement: evaluated for its effects, value dropped.
-                    // It cannot leave the function (a `return` inside would be refused).
-                    let saved = self.can_return;
-                    self.can_return = false;
-                    let c = self.comp(e, &env, &mut pre, false);
-                    self.can_return = saved;
-                    let c = c?;
-                    match c.ty() {
-                        Ty::Unit => {}
-                        // values without a destructor may be dropped on the floor
-                        Ty::Usize | Ty::Bool | Ty::Ref | Ty::Slice | Ty::Ptr if semi.is_some() => {}
-                        t => {
-                            return unsupported(
-                                &format!("expression statement whose value (a {}) is discarded", t.show()),
-                                e.span(),
-                            )
-                        }
-                    }
-                    if !matches!(c, Comp::Ret(_)) {
-                        pre.push(Pre::Bind(None, c, false));
-                    }
-                }
-            }
-        }
-        Ok((wrap(pre, Comp::unit()), false))
-    }
-}
-
-/// does this statement list end in a `return` statement?
-fn ends_in_return(stmts: &[Stmt]) -> bool {
-    matches!(stmts.last(), Some(Stmt::Expr(Expr::Return(_), _)))
 }
 
 /// monad laws applied to the output, for readability only:
@@ -1095,6 +585,10 @@ pub fn simplify(c: Comp) -> Comp {
         Comp::If(c, a, b, t) => Comp::If(c, Box::new(simplify(*a)), Box::new(simplify(*b)), t),
         Comp::Let(x, v, k) => Comp::Let(x, v, Box::new(simplify(*k))),
         Comp::MatchOpt(v, x, n, s) => Comp::MatchOpt(v, x, Box::new(simplify(*n)), Box::new(simplify(*s))),
+        Comp::Match(v, arms, t) => Comp::Match(v, arms.into_iter().map(|(p, c)| (p, simplify(c))).collect(), t),
+        Comp::Finally(a, b) => Comp::Finally(Box::new(simplify(*a)), Box::new(simplify(*b))),
+        Comp::OnUnwind(a, b) => Comp::OnUnwind(Box::new(simplify(*a)), Box::new(simplify(*b))),
+        Comp::Fuel(c) => Comp::Fuel(Box::new(simplify(*c))),
         other => other,
     }
 }
